@@ -158,6 +158,29 @@ def rule_store_writes(ctx, rid="R15.3"):
     return r
 
 
+def rule_every_retrieval_cached(ctx, rid="R15.3b"):
+    """With caching on, whatever branch retrieved the document, the store write is reached before returning."""
+    prog = ctx.prog
+    calls = calls_of(prog)
+    f = find_method(prog, "validators.RefResolver", "resolve_remote")
+    cfg = cfg_of(f)
+    r = ctx.rule(rid, "every successful retrieval, by whichever branch, passes the cache_remote test (and so the store write) before returning", floor=1)
+    tests = [n for n in cfg.live if n.kind == "test" and isinstance(n.ast, ast.Attribute) and n.ast.attr == "cache_remote"
+             and calls.type_of(f, n.ast.value) == "RefResolver"]
+    rets = [n for n in cfg.live if n.kind == "return"]
+    if not tests:
+        r.fail("%s|no-cache-test" % f.qual, site(f), "resolve_remote never consults cache_remote")
+        return r
+    dom = cfg.dominators()
+    for n in rets:
+        if any(t.id in dom[n.id] for t in tests):
+            r.ok(site(f, n.ast), "return dominated by the cache_remote test")
+        else:
+            r.fail("%s|return-bypasses-cache|%s" % (f.qual, norm(n.ast)[:40]), site(f, n.ast),
+                   "`%s` returns a retrieved document without passing the cache_remote test: with caching on it is fetched again for every new URL spelling/fragment" % norm(n.ast)[:50])
+    return r
+
+
 def rule_seeding(ctx, rid="R15.4"):
     prog = ctx.prog
     f = find_method(prog, "validators.RefResolver", "__init__")
@@ -308,6 +331,7 @@ def run(ctx):
     rule_store_first(ctx)
     rule_failures_wrapped(ctx)
     rule_store_writes(ctx)
+    rule_every_retrieval_cached(ctx)
     rule_seeding(ctx)
     rule_uridict(ctx)
     rule_caches(ctx)
